@@ -52,31 +52,34 @@ impl<'a> SymStream<'a> {
         let mut kinds = [TokenKind::Eof; CAP];
         let mut widths = [0u8; CAP];
         let mut name_n = [false; CAP];
-        let mut i = 0;
-        while i < CAP {
-            if i < n {
-                let k = any_kind();
-                kani::assume(k != TokenKind::Eof);
-                kinds[i] = k;
-                let w: u8 = kani::any();
-                kani::assume(w >= 1 && w <= 2);
-                widths[i] = w;
-                name_n[i] = kani::any();
-            }
-            i += 1;
+        // unrolled (CAP = 8): harness loops must not dictate the unwinding bound of the units
+        macro_rules! slot {
+            ($i:expr) => {
+                if $i < n {
+                    let k = any_kind();
+                    kani::assume(k != TokenKind::Eof);
+                    kinds[$i] = k;
+                    let w: u8 = kani::any();
+                    kani::assume(w >= 1 && w <= 2);
+                    widths[$i] = w;
+                    name_n[$i] = kani::any();
+                }
+            };
         }
+        slot!(0); slot!(1); slot!(2); slot!(3); slot!(4); slot!(5); slot!(6); slot!(7);
         SymStream { kinds, widths, name_n, n, pos: 0, cur: 0, has_err: false, last_name_n: false, eats: 0,
                     eof_seen: false, _p: std::marker::PhantomData }
     }
     pub fn offset_of(&self, idx: usize) -> usize {
         let mut o = 0usize;
-        let mut i = 0;
-        while i < CAP {
-            if i < idx && i < self.n {
-                o += self.widths[i] as usize;
-            }
-            i += 1;
+        macro_rules! slot {
+            ($i:expr) => {
+                if $i < idx && $i < self.n {
+                    o += self.widths[$i] as usize;
+                }
+            };
         }
+        slot!(0); slot!(1); slot!(2); slot!(3); slot!(4); slot!(5); slot!(6); slot!(7);
         o
     }
 }
